@@ -73,8 +73,8 @@ Section Length.
     else quad_fb_across a b t0 t1.
   (* 1e-12 as the exact binary64 value *)
   Definition eps12 : K := dyadic N 4951760157141521 (-92).
-  (* 1e-8 as the exact binary64 value *)
-  Definition eps8 : K := dyadic N 3022314549036573 (-78).
+  (* 1e-6 as the exact binary64 value *)
+  Definition eps6 : K := dyadic N 4722366482869645 (-72).
   (* nearly straight branch of the repaired code:
      abs(b)*(t1 - t0) + a_dot_b/abs(b)*(t1**2 - t0**2) *)
   Definition quad_near_linear (a b : Cplx K) (t0 t1 : K) : K :=
@@ -83,13 +83,13 @@ Section Length.
      fallback formulas: isnan in the code as it was, `not isfinite` after the
      repair C06-quad-length-collinear-nonfinite (both constantly false over an
      exact field).  [nl] = true: the repaired code has the branch
-     `elif abs(a) < 1e-8*abs(b)` (C06-quad-length-near-linear).
+     `elif abs(a) < 1e-6*abs(b)` (C06-quad-length-near-linear).
      The `t0 == 1 and t1 == 0` cache is C16's subject. *)
   Definition quad_length (nl : bool) (isbad : K -> bool) (s c e : Cplx K) (t0 t1 : K) : K :=
     let a := quad_a s c e in
     let b := quad_b s c e in
     if ltb N (cabs a) eps12 then cabs b * (t1 - t0)
-    else if nl && ltb N (cabs a) (eps8 * cabs b) then quad_near_linear a b t0 t1
+    else if nl && ltb N (cabs a) (eps6 * cabs b) then quad_near_linear a b t0 t1
     else let r := quad_closed a b t0 t1 in
          if isbad r then quad_collinear a b t0 t1 else r.
 
